@@ -19,6 +19,45 @@ func keyIndex(ma *MapAgg, key Val) int {
 		}
 		return -1
 	}
+	if ka, isAgg := key.(*Agg); isAgg { // struct keys: field by field, all decidable
+		for i, k := range ma.Keys {
+			a, ok := k.(*Agg)
+			if !ok || len(a.Elems) != len(ka.Elems) {
+				continue
+			}
+			same := true
+			for j := range a.Elems {
+				switch x := a.Elems[j].(type) {
+				case Ref:
+					y, ok := ka.Elems[j].(Ref)
+					same = same && ok && x == y
+				case Text:
+					y, ok := ka.Elems[j].(Text)
+					if !ok {
+						same = false
+						break
+					}
+					eq, dec := textEq(x, y)
+					if !dec || !eq.isConst() {
+						unsupported("undecidable struct map key comparison %s == %s", x, y)
+					}
+					same = same && eq.isTrue()
+				case *T:
+					y, ok := ka.Elems[j].(*T)
+					if !ok || !mkEq(x, y).isConst() {
+						unsupported("undecidable struct map key comparison")
+					}
+					same = same && mkEq(x, y).isTrue()
+				default:
+					unsupported("struct map key field of kind %T", x)
+				}
+			}
+			if same {
+				return i
+			}
+		}
+		return -1
+	}
 	kt, ok := key.(Text)
 	if !ok {
 		unsupported("map key of kind %T", key)
